@@ -356,7 +356,7 @@ def oracle(case, impl, spec):
     sp = spec.split(' ')
     if all(x == '?' for x in sp) or spec in ('BADVALUE', 'BADCASE'):
         return None
-    if 'CRASH' in impl or 'TIMEOUT' in impl or 'EXIT(' in impl:
+    if 'CRASH' in impl or ' | TIMEOUT' in impl or 'EXIT(' in impl:
         return 'comparison did not return: %s' % impl[-40:]
     if impl == 'BADVALUE':
         return None        # value construction is not this property's business (correspondence reports it)
@@ -373,10 +373,14 @@ def oracle(case, impl, spec):
     names = ['a', 'b', 'c']
     m = [[None] * 3 for _ in range(3)]
     al = aliased_flags(case)
-    known = None
+    known = stall = None
     for n, (a, b) in enumerate(zip(im, sp)):
         i, j = divmod(n, 3)
         if b == '?':
+            continue
+        if a == 'TIMEOUT':
+            stall = stall or 'cmp(%s,%s) does not return (comparison loop still running after 150 ms of CPU time), the reference order demands %s' % (
+                names[i], names[j], b.split(':')[0])
             continue
         if al[j]:
             # right operand is a Tuple with a repeated pointer: walked with Tuple_Iter_Next (open finding F3)
@@ -406,7 +410,7 @@ def oracle(case, impl, spec):
                 if m[i][j] <= 0 and m[j][k] <= 0 and m[i][k] != (0 if m[i][j] == 0 and m[j][k] == 0 else -1):
                     return 'not transitive: sign cmp(%s,%s) = %d, cmp(%s,%s) = %d but cmp(%s,%s) = %d' % (
                         names[i], names[j], m[i][j], names[j], names[k], m[j][k], names[i], names[k], m[i][k])
-    return known
+    return stall or known
 
 
 def classify(case, impl, why):
@@ -569,7 +573,19 @@ class Diff(vlib.Differential):
 
     def shrink(self, case, fails):
         if case.startswith('C '):
-            return shrink_c(case, fails)
+            # keep the KIND of failure while shrinking: a wrong comparison result stays a wrong result
+            # (it may not turn into a stalled comparison or into the known finding)
+            i = self.run_impl([case]); sp = self.run_spec([case])
+            why0 = self.oracle(case, i[0], sp[0]) or ''
+            stall0 = 'does not return' in why0 or 'did not return' in why0
+
+            def same_kind(c):
+                i = self.run_impl([c]); sp = self.run_spec([c])
+                why = self.oracle(c, i[0], sp[0]) if i and sp else None
+                if not why or why.startswith(KNOWN_F3):
+                    return False
+                return ('does not return' in why or 'did not return' in why) == stall0
+            return shrink_c(case, same_kind if fails == self._fails_oracle else fails)
         return vlib.Differential.shrink(self, case, fails)
 
 
@@ -626,7 +642,7 @@ def run(ctx):
         '"alias" cases: a Tuple whose slots repeat object pointers (ALL 279 aliasing patterns = set partitions of 0..6 slots, plus random ones over '
         'Int/String/Float values) against separately allocated Array/List/Tuple of equal values and a neighbour, operand order shuffled; the aliased '
         'Tuple as FIRST argument must order by its values (index walk), as SECOND argument it is walked with Tuple_Iter_Next = open finding '
-        'tuple-repeated-pointer (reported as KNOWN-FINDING, any other disagreement is a violation); a comparison that does not return in 3 s fails; '
+        'tuple-repeated-pointer (reported as KNOWN-FINDING, any other disagreement is a violation); a comparison still looping after 150 ms CPU time is a stalled case = failure; '
         '"K" cases set 2-12 boundary keys into a Tree and look every one up again; "?" cases mix sorts (raise behaviour, correspondence only). '
         'non-trivial = three pairwise different value texts and at least one off-diagonal comparison (or lookup) returned a result; '
         'distinct_nontrivial = number of distinct non-trivial INPUTS (case texts); a transcript here is only nine signs, so the number of '
@@ -642,7 +658,7 @@ def run(ctx):
     ctx.coq()
     drv = ctx.build_driver('Cmp')
     h = ctx.build_harness('val_cmp.c')
-    henv = dict(os.environ, H_TIMEOUT='3')       # a comparison that does not return within 3 s is a stalled case
+    henv = dict(os.environ, H_TIMEOUT='5')       # whole-case watchdog; each comparison has its own 150 ms CPU-time guard (field TIMEOUT)
     run_impl = lambda cs: ctx.run_lines(h, cs, env=henv)[1]
     # this property's own open findings (findings.d/C09.json; known_findings.json is assembled from it)
     try:
@@ -689,7 +705,7 @@ def run(ctx):
         hist['alias'] = hist.get('alias', 0) + len(cs)
         for i in range(0, len(cs), 60):
             d.feed(cs[i:i + 60])
-            if real_failures():          # stalled cases cost 3 s each: stop at the first concrete failure
+            if real_failures():          # stop at the first concrete failure
                 break
 
     feed_alias(150 if quick else 6000)
